@@ -166,6 +166,69 @@ func run(dir string, name string, args ...string) (string, error) {
 	return string(out), err
 }
 
+func cantoolStage(scratch string, order []*prog) {
+	var ok []*prog
+	for _, p := range order {
+		if p.status == "ok" {
+			ok = append(ok, p)
+		}
+	}
+	if len(ok) == 0 {
+		return
+	}
+	flagAll := func(f string) {
+		for _, p := range ok {
+			p.flags = append(p.flags, f)
+		}
+	}
+	if out, err := run(scratch, "go", "build", "-o", "cantool", "go.einride.tech/can/cmd/cantool"); err != nil {
+		fmt.Fprintln(os.Stderr, "cantool build failed:\n"+out)
+		flagAll("CANTOOL-BUILD-FAILS")
+		return
+	}
+	in, outDir := filepath.Join(scratch, "ctin"), filepath.Join(scratch, "ctout")
+	_ = os.MkdirAll(in, 0o755)
+	// pass 1: every program, bulky variant first (the program followed by a copy of the longest program's messages is
+	// not available without editing DBCs, so the order is: longest source under every name, then the real sources)
+	longest := ok[0]
+	for _, p := range ok {
+		if len(p.dbc) > len(longest.dbc) {
+			longest = p
+		}
+	}
+	for _, p := range ok {
+		_ = os.WriteFile(filepath.Join(in, fmt.Sprintf("prog%d.dbc", p.idx)), longest.dbc, 0o644)
+	}
+	if out, err := run(scratch, "./cantool", "generate", "ctin", "ctout"); err != nil {
+		fmt.Fprintln(os.Stderr, "cantool generate (pass 1) failed:\n"+out)
+		flagAll("CANTOOL-ERROR")
+		return
+	}
+	for _, p := range ok {
+		_ = os.WriteFile(filepath.Join(in, fmt.Sprintf("prog%d.dbc", p.idx)), p.dbc, 0o644)
+	}
+	if out, err := run(scratch, "./cantool", "generate", "ctin", "ctout"); err != nil {
+		fmt.Fprintln(os.Stderr, "cantool generate (pass 2) failed:\n"+out)
+		flagAll("CANTOOL-ERROR")
+		return
+	}
+	for _, p := range ok {
+		want, st := genOnce(fmt.Sprintf("ctin/prog%d.dbc", p.idx), p.dbc)
+		got, err := os.ReadFile(filepath.Join(outDir, fmt.Sprintf("prog%d.dbc.go", p.idx)))
+		switch {
+		case st != "ok" || err != nil:
+			p.flags = append(p.flags, "CANTOOL-NO-OUTPUT")
+		case !bytes.Equal(want, got):
+			p.flags = append(p.flags, "CANTOOL-DIFFERS")
+		default:
+			p.flags = append(p.flags, "cantool")
+		}
+	}
+	_ = os.RemoveAll(in)
+	_ = os.RemoveAll(outDir)
+	_ = os.Remove(filepath.Join(scratch, "cantool"))
+}
+
 func main() {
 	if len(os.Args) != 5 {
 		fmt.Fprintln(os.Stderr, "usage: genbuild <ops> <scratch> <template> <report>")
@@ -180,10 +243,14 @@ func main() {
 	sc.Buffer(make([]byte, 1<<20), 1<<28)
 	progs := map[string]*prog{}
 	var order []*prog
+	hasGapi := false
 	for sc.Scan() {
 		a := strings.Fields(sc.Text())
 		if len(a) < 2 || !strings.HasPrefix(a[0], "g") {
 			continue
+		}
+		if a[0] == "gapi" {
+			hasGapi = true
 		}
 		h := sha1.Sum([]byte(a[1]))
 		key := hex.EncodeToString(h[:])
@@ -230,6 +297,12 @@ func main() {
 		must(os.MkdirAll(dir, 0o755))
 		must(os.WriteFile(filepath.Join(dir, "gen.go"), out, 0o644))
 		p.api, p.msgs, p.hasNd = apiOf(out)
+	}
+	// the command-line entry point (`cantool generate <in> <out>`): its files must be byte-identical to what the
+	// library calls return for the same source name; regenerating into a directory that already holds (longer) files
+	// must give the same bytes as generating into a fresh one
+	if hasGapi {
+		cantoolStage(scratch, order)
 	}
 	// compile every package (in parallel); vet the ones that compile
 	var wg sync.WaitGroup
